@@ -396,6 +396,24 @@ def c15_vm(rng, tier):
         # tolerance: round-off of stresses of the size produced by the individual terms
         if np.max(np.abs(v0)) > 1e-9 * scale * 10:
             out.append(_fail(name + ": rigid-body motion gives non-zero stress", np.max(np.abs(v0)), 0.0, ny=ny))
+    # wingbox: `strength_factor_for_upper_skin` (documented: the yield stress of the upper skin is that factor times `yield`) divides
+    # exactly the two combinations evaluated against the upper-skin allowable (0 and 3) and nothing else; and under pure axial
+    # stretch of a straight element every combination is the closed-form E du / L over its own allowable factor
+    fac = float(rng.choice([0.8, 1.25, 1.5, 2.0]))
+    sf = dict(s); sf["strength_factor_for_upper_skin"] = fac
+    v1 = _vm_wingbox(s, nodes, wb, disp); vf = _vm_wingbox(sf, nodes, wb, disp)
+    req = v1.copy(); req[:, [0, 3]] /= fac
+    if relerr(vf, req) > 1e-10:
+        out.append(_fail("wingbox: von Mises with strength_factor_for_upper_skin = f is not the factor-1 result with the upper-skin "
+                         "combinations (0, 3) divided by f", vf[0], req[0], ny=ny, factor=fac))
+    Lw = float(rng.uniform(0.5, 2.0)); nodes_w = np.zeros((2, 3)); nodes_w[1, 1] = Lw
+    sw_ = dict(sf); sw_["mesh"] = np.zeros((2, 2, 3))
+    dw = np.zeros((2, 6)); dw[1, 1] = 1e-3
+    vw = _vm_wingbox(sw_, nodes_w, _wb_inputs(rng, 1), dw)
+    reqw = np.full((1, 4), E * 1e-3 / Lw); reqw[:, [0, 3]] /= fac
+    if relerr(vw, reqw) > 1e-10:
+        out.append(_fail("wingbox: axial stress of a straight element != E du / L (over the strength factor for the upper-skin combinations)",
+                         vw[0], reqw[0], factor=fac))
     # closed forms on a straight beam along y
     L = float(rng.uniform(0.5, 2.0)); r = float(rng.uniform(0.05, 0.3))
     nodes2 = np.zeros((2, 3)); nodes2[1, 1] = L
